@@ -74,7 +74,19 @@ fn gen(seed: u64, idx: u64, _tier: Tier) -> Plan {
         // traffic goes on across the reporter's first report(s): a trickle of requests until after
         // the first interval, so that workers publish snapshots while the reporter is busy writing
         let interval_us = plan.server.as_ref().unwrap().status_interval.unwrap() as u64 * 1_000_000;
-        let until = if many_reports { 30_000_000 + rng.below(60_000_000) } else { interval_us + 5_000_000 + rng.below(4_000_000) };
+        // one long-interval run in six goes on for 6-14 reports as well: there the queue never
+        // displaces a snapshot, so the persisted sums must match the traffic exactly
+        let long_exact = !many_reports && rng.chance(1, 6);
+        if long_exact {
+            plan.params.insert("many_reports_exact".into(), 1);
+        }
+        let until = if many_reports {
+            30_000_000 + rng.below(60_000_000)
+        } else if long_exact {
+            interval_us * (6 + rng.below(9))
+        } else {
+            interval_us + 5_000_000 + rng.below(4_000_000)
+        };
         if many_reports {
             plan.params.insert("many_reports".into(), 1);
         }
@@ -290,6 +302,20 @@ fn check(plan: &Plan, out: &RunOut) -> CheckOut {
         }
         if files >= 20 {
             co.probe("reporter_wrote_20_or_more_files");
+        }
+        if files >= 6 && plan.p("many_reports_exact") == 1 {
+            co.probe("six_or_more_reports_judged_exactly");
+        }
+        // every report is a file of its own: creating a path a second time truncates what an
+        // earlier report persisted (reports are at least a second apart and the clock does not
+        // step in this scenario, so names with a one-second resolution cannot repeat)
+        let mut created: std::collections::BTreeSet<&str> = Default::default();
+        for rec in &out.world.history {
+            if let dsim::Ev::FileCreate { path, ok: true } = &rec.ev {
+                if path.ends_with(".csv.zst") && !created.insert(path.as_str()) {
+                    co.violate("C17", "stats_not_conserved", "C17|stats_file_overwritten".into(), format!("at {:.3}s the reporter created {} a second time: the statistics persisted there by an earlier report are gone", rec.t as f64 / 1e9, path));
+                }
+            }
         }
         if files > 0 {
             co.probe("reporter_wrote_csv");
